@@ -1,3 +1,4 @@
+#![allow(dead_code)]
 //! Harness-owned fake aggregator (loopback HTTP, axum).
 //!
 //! * records every request together with the chain epoch at receipt and the harness step index,
